@@ -72,6 +72,14 @@ impl LSlots {
 }
 impl GSlots {
     pub(crate) fn empty() -> Self { GSlots(None, None, None) }
+    /// a shared map that really holds what the pop contract stub will answer (one item under any priority, or
+    /// nothing): whichever route the code under test takes to the shared queue, it finds the same
+    pub(crate) fn holding(sv: Option<It>) -> Self {
+        match sv {
+            Some(v) => { let q = Injector::new(); q.push(v); let p: c_longlong = kani::any(); GSlots(Some((p, q)), None, None) }
+            None => GSlots(None, None, None),
+        }
+    }
     pub(crate) fn any(max_items: usize) -> Self {
         let (a, b) = any_keys();
         GSlots(if kani::any() { Some((a, any_injector(max_items))) } else { None }, if kani::any() { Some((b, any_injector(max_items))) } else { None }, None)
@@ -247,10 +255,10 @@ fn q_ordered_idle_pop_finds_work_start0() { idle_pop_finds_work(0) }
 #[kani::stub(OrderedWorkStealQueue::pop, mirror::MS::pop)]
 fn q_ordered_idle_pop_finds_work_start1() { idle_pop_finds_work(1) }
 fn idle_pop_finds_work(start: usize) {
-    let (mut gs, mut s0, mut s1) = (GSlots::empty(), LSlots::empty(), LSlots::any(2));
+    let sv: Option<It> = kani::any(); // what the shared queue holds at its front, if anything
+    let (mut gs, mut s0, mut s1) = (GSlots::holding(sv), LSlots::empty(), LSlots::any(2));
     let l1 = s1.map();
     let sf = l_front(&l1);
-    let sv: Option<It> = kani::any(); // what the shared queue holds at its front, if anything
     kani::assume(sv.is_some() || sf.is_some());
     let x: It = kani::any();
     let k: c_longlong = kani::any();
@@ -310,15 +318,18 @@ fn q_ordered_local_push() {
     let v: It = kani::any();
     unsafe { NHANDED = 0; }
     a.push_with_priority(p, v);
-    let (hx, hk, hn) = unsafe { (handed_count(None, x), handed_count(Some(k), x), NHANDED) };
+    // what reached the shared queue: through its push (recorded by the contract stub) or, should the code under
+    // test fill the shared map by another route, what the real shared map holds (empty before the call)
+    let (hx, hk, hn) = unsafe { (handed_count(None, x) + g_count(&q.shared_queue, x), handed_count(Some(k), x) + g_count_at(&q.shared_queue, k, x), NHANDED + g_items(&q.shared_queue)) };
     kani::assert(l_items(a.queue) + hn == content + 1, "C03.push_adds_exactly_one_item");
     kani::assert(l_count(a.queue, x) + hx == total_x + (if v == x { 1 } else { 0 }), "C03.push_neither_loses_nor_duplicates_an_item");
+    kani::assert(q.len() == g_items(&q.shared_queue), "C03.shared_len_counts_the_items_it_holds");
     kani::assert(l_count_at(a.queue, k, x) + hk == at_k + (if k == p && v == x { 1 } else { 0 }), "C05.items_keep_their_priority");
     kani::assert(a.local_len() >= l_items(a.queue) && a.local_len() <= PCAP, "C04.local_counter_never_below_content");
     kani::assert(l_buckets_have_capacity(a.queue, PCAP), "C05.every_bucket_can_hold_the_local_capacity");
     // the new item is the newest of its priority in the queue it went to
-    let last = unsafe { if hn > 0 { Some(HANDED[hn - 1]) } else { None } };
-    kani::assert(l_back_at(a.queue, p) == Some(v) || last == Some((p, v)), "C05.push_appends_behind_its_equals");
+    let last = unsafe { if NHANDED > 0 { Some(HANDED[NHANDED - 1]) } else { None } };
+    kani::assert(l_back_at(a.queue, p) == Some(v) || last == Some((p, v)) || g_back_at(&q.shared_queue, p) == Some(v), "C05.push_appends_behind_its_equals");
     if believed < PCAP {
         kani::assert(hn == 0, "C05.no_overflow_below_capacity");
         if let Some((fp, fv)) = lf { kani::assert(l_front(a.queue) == Some(if p < fp { (p, v) } else { (fp, fv) }), "C05.push_does_not_reorder_waiting_items"); }
@@ -406,12 +417,12 @@ pub(crate) mod mirror {
 #[kani::stub(OrderedLocalQueue::pop_local, mirror::ML::pop_local)]
 #[kani::stub(OrderedWorkStealQueue::pop, mirror::MS::pop)]
 fn q_ordered_pop_consultation_order() {
-    let (mut gs, mut s0, mut s1) = (GSlots::empty(), LSlots::empty(), LSlots::empty());
+    let lv: It = kani::any();
+    let sv: Option<It> = kani::any();
+    let (mut gs, mut s0, mut s1) = (GSlots::holding(sv), LSlots::empty(), LSlots::empty());
     let q = mk_shared(gs.map(), s0.map(), s1.map());
     let c: u32 = kani::any();
     let a = mk_local(&q, 0, 0, c);
-    let lv: It = kani::any();
-    let sv: Option<It> = kani::any();
     unsafe { STUB_LOCAL = Some(lv); STUB_SHARED = sv; NORDER = 0; }
     let r = a.pop();
     let sixty_first = c.wrapping_add(1) % 61 == 0;
